@@ -99,6 +99,12 @@ enum Ev {
     Send { a: usize, i: usize },
     /// what client (a, i) emits is delivered from the other address
     SendVia { a: usize, i: usize },
+    /// one direction only: the client's packet reaches the server, the server's answers stay in
+    /// flight
+    SendHalf { a: usize, i: usize },
+    /// the answers in flight reach client (a, i); what the client emits then reaches the server
+    /// (whose answers stay in flight again)
+    Deliver { a: usize, i: usize },
     Out { a: usize },
     Tick,
 }
@@ -119,6 +125,8 @@ fn alphabet() -> Vec<Ev> {
         for i in 0..N_IDS {
             v.push(Ev::Send { a, i });
             v.push(Ev::SendVia { a, i });
+            v.push(Ev::SendHalf { a, i });
+            v.push(Ev::Deliver { a, i });
         }
     }
     for a in 0..N_ADDRS {
@@ -142,6 +150,10 @@ struct World {
     authz: Arc<VAuthz>,
     clients: BTreeMap<(usize, usize), Tunn>,
     sent: BTreeMap<(usize, usize), BTreeSet<Vec<u8>>>,
+    /// server -> client packets not yet delivered
+    inflight: BTreeMap<(usize, usize), Vec<(Vec<u8>, bool)>>,
+    /// payloads handed to the server for encryption towards an address
+    outbound_payloads: BTreeSet<Vec<u8>>,
     model: Model,
     secrets: Vec<x25519::StaticSecret>,
     pubs: Vec<[u8; 32]>,
@@ -172,6 +184,8 @@ impl World {
             authz,
             clients: BTreeMap::new(),
             sent: BTreeMap::new(),
+            inflight: BTreeMap::new(),
+            outbound_payloads: BTreeSet::new(),
             model: Model::default(),
             secrets,
             pubs,
@@ -201,11 +215,71 @@ impl World {
         self.clients.entry((a, i)).or_insert_with(|| Tunn::new(secrets[i].clone(), server_pub, None, None, (a * 8 + i) as u32 + 1, rl.clone(), server_addr))
     }
 
-    fn send(&mut self, a: usize, i: usize, via_other: bool) {
+    /// a packet from the server reaches client (a, i); returns what the client emits in response
+    fn client_receives(&mut self, a: usize, i: usize, bytes: &[u8], authorised_when_emitted: bool) -> Vec<Vec<u8>> {
+        let mut next = vec![];
+        let Ok(kind) = Packet::copy_from(bytes).try_into_wg() else { return next };
+        let r = self.client(a, i).handle_incoming_packet(kind);
+        match r {
+            TunnResult::WriteToNetwork(p) => next.push(kind_bytes(p)),
+            TunnResult::WriteToTunnel(plain) if !plain.is_empty() => {
+                // an outbound payload arrived at a client: it must be authorised right now
+                if self.outbound_payloads.contains(&plain[..].to_vec()) && !authorised_when_emitted {
+                    self.bad("outbound:payload-emitted-for-identity-not-authorised-then", format!("the server put an encrypted payload for identity {i} on the wire while that identity held no unexpired registration (observed at t={})", self.model.vtime));
+                }
+            }
+            _ => {}
+        }
+        let queued: Vec<_> = self.client(a, i).get_queued_packets().map(kind_bytes).collect();
+        next.extend(queued);
+        next
+    }
+
+    /// one packet from client (a, i) reaches the server from address `from`; returns the server's
+    /// answers
+    fn server_receives(&mut self, a: usize, i: usize, from: SocketAddr, bytes: &[u8]) -> Vec<Vec<u8>> {
+        let via_other = from != self.addrs[a];
+        let mut q = VecDeque::new();
+        let res = self.server.handle_incoming_packet_with_session(Packet::copy_from(bytes), from, &mut q);
+        match res {
+            HandleIncomingPacketResult::Forwarded { packet, session_data, .. } => {
+                self.forwarded += 1;
+                let sd = *session_data;
+                match self.id_of(&sd) {
+                    None => self.bad("forwarded:session-of-unknown-identity", "session data is not one of the registered identities"),
+                    Some(j) => {
+                        if !self.model.authorized(j) {
+                            self.bad("forwarded:identity-not-authorised-now", format!("payload forwarded for identity {j} which holds no unexpired registration at t={}", self.model.vtime));
+                        }
+                        if j != i {
+                            self.bad("forwarded:attributed-to-other-identity", format!("payload encrypted by identity {i} attributed to the session of identity {j}"));
+                        }
+                    }
+                }
+                if via_other {
+                    self.bad("forwarded:from-another-address", "ciphertext of a client accepted from a different socket address");
+                }
+                if !self.sent.get(&(a, i)).map(|s| s.contains(&packet[..].to_vec())).unwrap_or(false) {
+                    self.bad("forwarded:payload-not-sent", "forwarded payload differs from everything this client sent");
+                }
+            }
+            HandleIncomingPacketResult::Result { result: TunnResult::WriteToNetwork(_) } => self.bad("incoming:write-to-network-returned", "handle_incoming_packet returned WriteToNetwork"),
+            HandleIncomingPacketResult::Result { result: TunnResult::Err(_) } => self.refused_in += 1,
+            HandleIncomingPacketResult::Result { .. } => {}
+        }
+        q.into_iter().map(kind_bytes).collect()
+    }
+
+    fn new_payload(&mut self, a: usize, i: usize) -> Vec<u8> {
         self.ctr += 1;
         let mut payload = format!("payload-a{a}-i{i}-n{}-", self.ctr).into_bytes();
         payload.resize(48 + (self.ctr as usize % 5) * 16, b'.');
         self.sent.entry((a, i)).or_default().insert(payload.clone());
+        payload
+    }
+
+    fn send(&mut self, a: usize, i: usize, via_other: bool) {
+        let payload = self.new_payload(a, i);
         let from = if via_other { self.addrs[(a + 1) % N_ADDRS] } else { self.addrs[a] };
         let mut to_server: Vec<Vec<u8>> = self.client(a, i).handle_outgoing_packet(Packet::copy_from(&payload[..])).into_iter().map(kind_bytes).collect();
         for _round in 0..4 {
@@ -214,48 +288,42 @@ impl World {
             }
             let mut next = vec![];
             for bytes in std::mem::take(&mut to_server) {
-                let mut q = VecDeque::new();
-                let res = self.server.handle_incoming_packet_with_session(Packet::copy_from(&bytes[..]), from, &mut q);
-                match res {
-                    HandleIncomingPacketResult::Forwarded { packet, session_data, .. } => {
-                        self.forwarded += 1;
-                        let sd = *session_data;
-                        match self.id_of(&sd) {
-                            None => self.bad("forwarded:session-of-unknown-identity", "session data is not one of the registered identities"),
-                            Some(j) => {
-                                if !self.model.authorized(j) {
-                                    self.bad("forwarded:identity-not-authorised-now", format!("payload forwarded for identity {j} which holds no unexpired registration at t={}", self.model.vtime));
-                                }
-                                if j != i {
-                                    self.bad("forwarded:attributed-to-other-identity", format!("payload encrypted by identity {i} attributed to the session of identity {j}"));
-                                }
-                            }
-                        }
-                        if via_other {
-                            self.bad("forwarded:from-another-address", "ciphertext of a client accepted from a different socket address");
-                        }
-                        if !self.sent.get(&(a, i)).map(|s| s.contains(&packet[..].to_vec())).unwrap_or(false) {
-                            self.bad("forwarded:payload-not-sent", "forwarded payload differs from everything this client sent");
-                        }
-                    }
-                    HandleIncomingPacketResult::Result { result: TunnResult::WriteToNetwork(_) } => self.bad("incoming:write-to-network-returned", "handle_incoming_packet returned WriteToNetwork"),
-                    HandleIncomingPacketResult::Result { result: TunnResult::Err(_) } => self.refused_in += 1,
-                    HandleIncomingPacketResult::Result { .. } => {}
-                }
+                let replies = self.server_receives(a, i, from, &bytes);
                 if via_other {
                     // replies go to the other address; the replaying party has no keys
                     continue;
                 }
-                for reply in q {
-                    let c = self.client(a, i);
-                    if let TunnResult::WriteToNetwork(p) = c.handle_incoming_packet(reply) {
-                        next.push(kind_bytes(p));
-                    }
-                    let queued: Vec<_> = c.get_queued_packets().map(kind_bytes).collect();
-                    next.extend(queued);
+                let auth = self.model.authorized(i);
+                for reply in replies {
+                    next.extend(self.client_receives(a, i, &reply, auth));
                 }
             }
             to_server = next;
+        }
+    }
+
+    fn send_half(&mut self, a: usize, i: usize) {
+        let payload = self.new_payload(a, i);
+        let from = self.addrs[a];
+        let to_server: Vec<Vec<u8>> = self.client(a, i).handle_outgoing_packet(Packet::copy_from(&payload[..])).into_iter().map(kind_bytes).collect();
+        for bytes in to_server {
+            let replies = self.server_receives(a, i, from, &bytes);
+            let auth = self.model.authorized(i);
+            self.inflight.entry((a, i)).or_default().extend(replies.into_iter().map(|b| (b, auth)));
+        }
+    }
+
+    fn deliver(&mut self, a: usize, i: usize) {
+        let from = self.addrs[a];
+        let pending = self.inflight.remove(&(a, i)).unwrap_or_default();
+        let mut to_server = vec![];
+        for (reply, auth) in pending {
+            to_server.extend(self.client_receives(a, i, &reply, auth));
+        }
+        for bytes in to_server {
+            let replies = self.server_receives(a, i, from, &bytes);
+            let auth = self.model.authorized(i);
+            self.inflight.entry((a, i)).or_default().extend(replies.into_iter().map(|b| (b, auth)));
         }
     }
 
@@ -263,6 +331,7 @@ impl World {
         self.ctr += 1;
         let mut payload = format!("outbound-a{a}-n{}-", self.ctr).into_bytes();
         payload.resize(64, b'+');
+        self.outbound_payloads.insert(payload.clone());
         let Some(h) = self.server.handle_outgoing_packet_with_session(Packet::copy_from(&payload[..]), self.addrs[a]) else {
             self.refused_out += 1;
             return;
@@ -310,16 +379,16 @@ impl World {
             }
             Ev::Send { a, i } => self.send(a, i, false),
             Ev::SendVia { a, i } => self.send(a, i, true),
+            Ev::SendHalf { a, i } => self.send_half(a, i),
+            Ev::Deliver { a, i } => self.deliver(a, i),
             Ev::Out { a } => self.out(a),
             Ev::Tick => {
-                for (addr, pkt) in self.server.update_timers() {
-                    let bytes = kind_bytes(pkt);
-                    for ((ca, _), c) in self.clients.iter_mut() {
-                        if self.addrs[*ca] == addr
-                            && let Ok(k) = Packet::copy_from(&bytes[..]).try_into_wg()
-                        {
-                            let _ = c.handle_incoming_packet(k);
-                        }
+                let out: Vec<(SocketAddr, Vec<u8>)> = self.server.update_timers().into_iter().map(|(a, p)| (a, kind_bytes(p))).collect();
+                for (addr, bytes) in out {
+                    let at: Vec<(usize, usize)> = self.clients.keys().filter(|(ca, _)| self.addrs[*ca] == addr).cloned().collect();
+                    for (ca, ci) in at {
+                        let auth = self.model.authorized(ci);
+                        let _ = self.client_receives(ca, ci, &bytes, auth);
                     }
                 }
             }
@@ -416,13 +485,15 @@ pub fn run(args: &Args, mon: &mut Mon) -> (String, Vec<&'static str>) {
         // bias: a flow for one (address, identity) threaded through registry churn
         let (fa, fi) = (r.usize(N_ADDRS), r.usize(N_IDS));
         while evs.len() < len {
-            let e = match r.below(12) {
+            let e = match r.below(13) {
                 0 | 1 => Ev::Register { k: r.usize(N_KEYS), i: if r.bool() { fi } else { r.usize(N_IDS) }, life: *r.pick(&[10u64, 30]) },
                 2 => Ev::Advance(*r.pick(&[10u64, 21, 9, 1])),
                 3 => Ev::Purge,
                 4 | 5 | 6 => Ev::Send { a: fa, i: fi },
-                7 => Ev::Send { a: r.usize(N_ADDRS), i: r.usize(N_IDS) },
+                7 if r.bool() => Ev::Send { a: r.usize(N_ADDRS), i: r.usize(N_IDS) },
+                7 => if r.bool() { Ev::SendHalf { a: fa, i: fi } } else { Ev::Deliver { a: fa, i: fi } },
                 8 => Ev::SendVia { a: fa, i: fi },
+                12 => if r.bool() { Ev::SendHalf { a: fa, i: fi } } else { Ev::Deliver { a: fa, i: fi } },
                 9 | 10 => Ev::Out { a: if r.chance(3, 4) { fa } else { r.usize(N_ADDRS) } },
                 _ => Ev::Tick,
             };
@@ -433,7 +504,7 @@ pub fn run(args: &Args, mon: &mut Mon) -> (String, Vec<&'static str>) {
     });
     mon.sample_labeled("alphabet", || json!(alphabet().iter().map(|e| format!("{e:?}")).collect::<Vec<_>>()));
     (
-        format!("all {total} event sequences of length {depth} over the {n_alpha}-event alphabet {{register(2 keys x 3 identities x lifetimes 10/30 s), clock +10/+21 s, purge, send from (2 addresses x 3 identities) incl. handshake, same ciphertext delivered from the other address, outbound payload to each address, timer tick}}, plus {n_rand} scenario-directed random walks of 5-40 events (one client flow threaded through registry churn, clock steps 1/9/10/21 s). Real SnapTunServer + real IdentityRegistry + real WireGuard clients; a reference model of the authorisation database judges every Forwarded / outgoing Some / has_authorization observation. distinct = (forwarded, encrypted, refused-in, refused-out, length) count classes."),
+        format!("all {total} event sequences of length {depth} over the {n_alpha}-event alphabet {{register(2 keys x 3 identities x lifetimes 10/30 s), clock +10/+21 s, purge, send from (2 addresses x 3 identities) incl. handshake, one-directional send with the server's answers left in flight, delivery of the answers in flight, same ciphertext delivered from the other address, outbound payload to each address, timer tick}}, plus {n_rand} scenario-directed random walks of 5-40 events (one client flow threaded through registry churn, clock steps 1/9/10/21 s). Real SnapTunServer + real IdentityRegistry + real WireGuard clients; a reference model of the authorisation database judges every Forwarded / outgoing Some / has_authorization observation. distinct = (forwarded, encrypted, refused-in, refused-out, length) count classes."),
         vec![
             "trusted: the reference model of the authorisation database in chk-snap/src/c09.rs; ana-gotatun's WireGuard implementation for the clients",
             "virtual time: the registry is called with Instant::now() + offset; lifetimes and clock steps are whole seconds, a case slower than 0.7 s is not judged",
